@@ -19,7 +19,7 @@ TABLE = {
  "C05": ("8.5", "J2M.C05.closure_components / closure_terminates / closure_total: for every symmetric similarity table and every n the grouping loop of merge_models terminates within n+2 passes with exactly the connected components that have an edge; tie: closure op on all tables n<=5 (thorough: sample of n=6) and pipeline stage with real comparators at the thresholds; falsifier: union-find vs registry",
          "percent thresholds as exact rationals of the float (T4); merged-fields/no-dangling-pointer clauses rest on tie + falsifier"),
  "C06": ("8.6", "the Lean model is a function of (samples, options): every set-ordered step is proved order-free (J2M.C06.distinctWords_perm, sortStrings_perm, …) or sorted; tie: implementation text equals the model's single answer; falsifier renders each case in fresh processes under 4/16 PYTHONHASHSEED values",
-         "site inventory (AST scan for set iteration) not implemented: new order-dependent sites are caught by the multi-seed runs only"),
+         "site inventory (AST scan of set constructions / next(iter())) compared with the committed table on every run; a new site is reported as a broken correspondence"),
  "C07": ("8.7", "J2M.C07.* (key set and optionality of merge_field_sets invariant under permutation/duplication; DUnion members as a set under hash injectivity) + generate/pipeline tie on permuted and duplicated sample lists; falsifier canonicalises the real registry graph (bisimulation from the roots) for all permutations of <=4 samples",
          "C07_generate_perm for the whole pipeline is partial (per-function invariance proved; composition rests on tie + falsifier)"),
  "C08": ("8.8", "J2M.C08.optimize_nf / optimize_nfc / optimize_idem / optimize_twice / generate_second_pass / mkUnion_flat_nodup: results of simplification are in normal form and a further pass is the identity, never failing except by comparison-recursion; tie: optimize x1..3 and DUnion on all multisets <=3 of the 37-type universe (thorough) + registry second pass; falsifier re-optimises the real registry and scans annotations",
